@@ -263,7 +263,7 @@ endstruc
         lea     tmp3, [n - 1]
         shl     tmp3, 4
         add     tmp, tmp3
-        vmovdqu xmm1, [tmp] ;; load last block
+        mov     tmp2, tmp       ;; pointer to the last (partial) block
 
         ;; get mask for padding
 %ifndef LINUX
@@ -276,6 +276,8 @@ endstruc
         mov     rcx, tmp3       ; restore rcx
 %endif
         kmovq   k1, tmp
+        knotw   k2, k1          ;; mask of the message bytes in the last block
+        vmovdqu8 xmm1{k2}{z}, [tmp2] ;; load last block, message bytes only
 
         lea     tmp, [rel padding_0x80_tab16 + 16]
         sub     tmp, r
